@@ -319,6 +319,8 @@ def all(a, axis=None, **kw):
         for v in a.reshape(-1):
             r = _s.band(r, v if isinstance(v, (B, bool, _np.bool_)) else (_s.lift(v) != 0))
         return r
+    if isinstance(a, _np.ndarray) and type(a) is not _np.ndarray:
+        a = a.view(_np.ndarray)        # np.all(subclass) dispatches to subclass.all(), which is this function
     return _np.all(a, axis=axis, **kw)
 
 
@@ -330,6 +332,8 @@ def any(a, axis=None, **kw):
         for v in a.reshape(-1):
             r = _s.bor(r, v if isinstance(v, (B, bool, _np.bool_)) else (_s.lift(v) != 0))
         return r
+    if isinstance(a, _np.ndarray) and type(a) is not _np.ndarray:
+        a = a.view(_np.ndarray)
     return _np.any(a, axis=axis, **kw)
 
 
@@ -556,6 +560,11 @@ class _Linalg(types.ModuleType):
 
     def __getattr__(self, name):
         f = getattr(_np.linalg, name)
+        if name in ('eig', 'eigh') and EIG_STUB is not None:
+            # a target may stand in for the eigen-solver with symbolic (eigenvalues, eigenvectors) of its own inputs, so
+            # that the code AFTER the LAPACK call is traced (additive: without a stub the call still fails closed)
+            stub = EIG_STUB
+            return lambda *a, **k: stub
 
         def guarded(*a, **k):
             if builtins.any(_is_sym(x) for x in a):
@@ -661,6 +670,7 @@ class _Linalg(types.ModuleType):
         return _wrap(out)
 
 
+EIG_STUB = None
 linalg = _Linalg('symnp.linalg')
 
 
